@@ -478,3 +478,68 @@ def proof_gate(res, prop, theorems, targets=None):
         for f in fails:
             res.obligation(False, f)
     return ok
+
+
+# ----------------------------------------------------------------- hook logs -> tokens
+
+def tok_var(v):
+    if v == "r":
+        return [0]
+    if "s" in v:
+        return [1, v["s"]]
+    return [2, v["h"][0], v["h"][1]]
+
+
+def tok_lit(l):
+    return tok_var(l[0]) + [1 if l[1] else 0]
+
+
+def tok_clause(c):
+    k = c["kind"]
+    if k == "root":
+        t = [0]
+    elif "req" in k:
+        q = k["req"]
+        t = [1] + tok_var(q["parent"]) + tok_req(q["req"]) + [len(q["cands"])]
+        for cl in q["cands"]:
+            t += [len(cl)] + [x["s"] for x in cl]
+    elif "forbid" in k:
+        t = [2, k["forbid"]["name"]]
+    elif "con" in k:
+        q = k["con"]
+        t = [3] + tok_var(q["parent"]) + [q["forbidden"]["s"], q["vs"]]
+    elif "lock" in k:
+        q = k["lock"]
+        t = [4, q["locked"]["s"], q["other"]["s"]]
+    elif "excl" in k:
+        q = k["excl"]
+        t = [5, q["var"]["s"] if q["var"] != "r" else 0, q["reason"]]
+    else:
+        t = [6] + tok_list(k["learnt"]["why"])
+    t.append(len(c["lits"]))
+    for l in c["lits"]:
+        t += tok_lit(l)
+    return t
+
+
+def tok_log(d):
+    t = [len(d["clauses"])]
+    for c in d["clauses"]:
+        t += tok_clause(c)
+    evs = []
+    for e in d["events"]:
+        if e == "ul":
+            evs.append([1])
+        elif "a" in e:
+            a = e["a"]
+            evs.append([0] + tok_var(a["var"]) + [1 if a["value"] else 0, a["reason"]])
+        elif "uu" in e:
+            if e["uu"] == 0:
+                evs.append([2])
+    t.append(len(evs))
+    for e in evs:
+        t += e
+    t.append(len(d["trail"]))
+    for x in d["trail"]:
+        t += tok_var(x[0]) + [1 if x[1] else 0]
+    return t
